@@ -1463,7 +1463,80 @@ Proof.
       rewrite H. reflexivity.
   - objF_cases ln eln doc x.
   - objF_cases ln eln doc x.
-  - intros _. objF_cases ln eln doc x.
+  - intro Hm. destruct x; try discriminate Hm. unfold dobjF. destruct ln, eln, doc; reflexivity.
   - intros k Hk. unfold slot_key in Hk. apply mem_str_in in Hk. simpl in Hk.
     repeat (destruct Hk as [Hk|Hk]; [subst k; objF_cases ln eln doc x|]). contradiction.
+Qed.
+
+Lemma mapM_cons_ok {A B} (f : A -> res B) x r y r' : f x = Ok y -> mapM f r = Ok r' -> mapM f (x :: r) = Ok (y :: r').
+Proof. intros Hx Hr. rewrite mapM_cons, Hx, Hr. reflexivity. Qed.
+
+Lemma hook_dmembers ms : hook (dmembers ms) = Ok (PDict (dmembers ms)).
+Proof.
+  unfold hook. destruct (lookup_dmembers "cls" ms) as [->|[t ->]]; destruct (lookup_dmembers "kind" ms) as [->|[t' ->]]; reflexivity.
+Qed.
+
+Lemma members_full_decode F path ms ms' :
+  mapM (fun km : string * tree => let (k, m) := km in bind (enc_full F path m) (fun j => Ok (k, j))) ms = Ok ms' ->
+  (forall km, In km ms -> forall j, enc_full F path (snd km) = Ok j -> decode j = Ok (PTree (reload (snd km)))) ->
+  decode (JObj ms') = Ok (PDict (dmembers ms)).
+Proof.
+  intros Hm IH. rewrite decode_obj.
+  assert (H : mapM dec_kv ms' = Ok (dmembers ms)).
+  { revert ms' Hm. induction ms as [|[k m] r IHr]; intros ms' Hm.
+    - rewrite mapM_nil in Hm. inversion Hm. reflexivity.
+    - rewrite mapM_cons in Hm. destruct (enc_full F path m) as [jm|] eqn:Em; [|discriminate]. cbn [bind] in Hm.
+      match type of Hm with context [mapM ?f r] => destruct (mapM f r) as [r'|] eqn:Er; [|discriminate] end.
+      cbn [bind] in Hm. inversion Hm; subst ms'.
+      rewrite mapM_cons. cbn [dec_kv]. rewrite (IH (k, m) (or_introl eq_refl) jm Em). cbn [bind].
+      rewrite (IHr (fun km Hin => IH km (or_intror Hin)) r' eq_refl). reflexivity. }
+  rewrite H. cbn [bind]. apply hook_dmembers.
+Qed.
+
+Theorem full_decode : forall F, (forall path, finfo_ok (F path)) ->
+  forall t prefix j, rep t = true -> enc_full F prefix t = Ok j -> decode j = Ok (PTree (reload t)).
+Proof.
+  intros F HF. induction t using tree_ind'; intros prefix j Hrep Henc.
+  - (* alias *)
+    cbn [enc_full] in Henc. inversion Henc; subst j. clear Henc.
+    cbn [rep] in Hrep. apply andb_true_iff in Hrep as [Hl He]. cbn [reload].
+    destruct ln as [l|]; destruct eln as [e|]; cbn [truthy_field zero_to_none nonzero] in *;
+      repeat match goal with |- context [Z.eqb ?z 0] => destruct (Z.eqb z 0); [discriminate|] end; reflexivity.
+  - (* object *)
+    pose proof (rep_obj _ _ _ _ _ _ _ Hrep) as NF.
+    cbn [enc_full] in Henc. set (path := dotted prefix n) in *.
+    destruct (HF path) as (Hfp & Hrel & Hrelp & Hsecs & _).
+    unfold full_keys in Henc.
+    destruct (f_filepath (F path)) as [jfp|] eqn:Efp; [|discriminate]. cbn [of_option bind] in Henc.
+    destruct (f_relative (F path)) as [jrel|] eqn:Erel; [|discriminate]. cbn [of_option bind] in Henc.
+    destruct (f_relative_package (F path)) as [jrelp|] eqn:Erelp; [|discriminate]. cbn [of_option bind] in Henc.
+    match type of Henc with context [mapM ?f ms] => destruct (mapM f ms) as [ms'|] eqn:Ems; [|discriminate] end.
+    cbn [bind] in Henc. inversion Henc as [Hj]. clear Henc. subst j.
+    destruct (Hfp _ eq_refl) as [vfp Hvfp]. destruct (Hrel _ eq_refl) as [vrel Hvrel]. destruct (Hrelp _ eq_refl) as [vrelp Hvrelp].
+    destruct (dec_doc_full _ Hsecs) as [secs' Hdoc].
+    assert (Hmem : decode (JObj ms') = Ok (PDict (dmembers ms))).
+    { apply (members_full_decode F path ms ms' Ems). intros km Hin jm Hjm. rewrite Forall_forall in H.
+      apply (H km Hin path jm); [|exact Hjm]. pose proof (nf_children _ _ _ _ _ _ _ NF) as Hc. rewrite Forall_forall in Hc. auto. }
+    rewrite <- (hook_objF n path vfp vrel vrelp secs' ln eln doc ls ms x NF).
+    rewrite decode_obj.
+    assert (Hdocf : mapM dec_kv (match doc with Some d => [("docstring", enc_doc_full (f_parsed (F path)) d)] | None => [] end) = Ok (p_docfF secs' doc)).
+    { destruct doc as [d|]; [|reflexivity]. rewrite mapM_cons, mapM_nil. cbn [dec_kv]. rewrite Hdoc. reflexivity. }
+    assert (Hlm : mapM dec_kv [("labels", JArr (map JStr ls)); ("members", JObj ms')]
+                  = Ok [("labels", PList (map PStr ls)); ("members", PDict (dmembers ms))]).
+    { rewrite !mapM_cons, mapM_nil. cbn [dec_kv]. rewrite dec_labels, Hmem. reflexivity. }
+    match goal with |- bind (mapM dec_kv ?fl) hook = _ =>
+      assert (Hf : mapM dec_kv fl = Ok (dobjF n path vfp vrel vrelp secs' ln eln doc ls ms x)); [|rewrite Hf; reflexivity] end.
+    unfold dobjF.
+    destruct x as [fp|bases decos|decos params ret|v a]; cbn [app set_key String.eqb Ascii.eqb Bool.eqb kind_of];
+      (apply mapM_cons_ok; [reflexivity|]); (apply mapM_cons_ok; [reflexivity|]); (apply mapM_cons_ok; [reflexivity|]);
+      (apply mapM_cons_ok; [cbn [dec_kv]; rewrite ?dec_fpath, ?Hvfp; reflexivity|]);
+      (apply mapM_cons_ok; [cbn [dec_kv]; rewrite Hvrel; reflexivity|]);
+      (apply mapM_cons_ok; [cbn [dec_kv]; rewrite Hvrelp; reflexivity|]);
+      rewrite <- ?app_assoc;
+      (apply mapM_app_ok; [apply dec_opt_field|]); (apply mapM_app_ok; [apply dec_opt_field|]);
+      (apply mapM_app_ok; [exact Hdocf|]).
+    + rewrite ?app_nil_r. exact Hlm.
+    + apply mapM_app_ok; [exact Hlm|]. apply dec_extra_full; [apply HF|apply NF].
+    + apply mapM_app_ok; [exact Hlm|]. apply dec_extra_full; [apply HF|apply NF].
+    + apply mapM_app_ok; [exact Hlm|]. apply dec_extra_full; [apply HF|apply NF].
 Qed.
